@@ -7,7 +7,7 @@ from harness import table_scorers as ts
 from harness.engine import coq_bad_cases, coq_eval, coq_list, pairs_nat, zlit
 
 INFO = {
-    "extra_targets": ["Check/CbsCheck.vo"],
+    "extra_targets": ["Check/CbsCheck.vo", "Check/GenericCheck.vo"],
     "level": "proof",
     "rule": "integer local anomaly scores (formula columns / integer inside-vs-outside mean contrasts of data with epidemic bumps, "
             "p = 1..3) through the real CircularBinarySegmentation with integer threshold_: m in 1..3, n in [2m, 22], "
@@ -210,3 +210,6 @@ def run(ctx):
     ctx.notes["candidate_grid"] = f"exhaustive: start 0..2, length 0..{12 if ctx.quick() else 21}, min_segment_length 1..5: {len(acases)} candidates"
     from harness import helpers as _helpers
     _helpers.cbs_helpers(ctx)
+    # ---- the same search loop on BINARY64 score tables of the real built-in scorers (Model/Generic.v at Model/GenericF.v), bit for bit ----
+    from harness import floatstreams
+    floatstreams.cbs_float_stream(ctx, ctx.n(24, 120))
